@@ -76,6 +76,17 @@ def make_sim(rng, kind, et):
     return Harnessed(mesh, model), mesh
 
 
+def permuted_mesh(mesh, rng):
+    """the same mesh with its nodes renumbered at random: same sizes, other connectivity"""
+    Nn = mesh.Nn
+    perm = list(range(Nn))
+    rng.shuffle(perm)
+    perm = np.array(perm)
+    coord2 = np.zeros_like(mesh.coord)
+    coord2[perm] = mesh.coord
+    return Mesh({g.elemType: GroupElemFactory.Create(g.elemType, perm[np.asarray(g.connect)], coord2) for g in mesh.dict_groupElem.values()})
+
+
 def main():
     args = parse_args()
     rng = rng_for(args)
@@ -96,7 +107,13 @@ def main():
         history = []
         nops = 5 if args.tier == "quick" else 9
         for op in range(nops):
-            kind_op = rng.choice(["assembly", "assembly", "direct", "reorder", "newmesh"])
+            kind_op = rng.choice(["assembly", "assembly", "direct", "reorder", "newmesh", "permmesh"]) if op != 2 else "permmesh"
+            if kind_op == "permmesh" and op > 0:
+                # same node / element counts, other connectivity: a pattern cached on sizes alone would be stale
+                mesh = permuted_mesh(mesh, rng)
+                simu.mesh = mesh
+                history.append("renumbered-mesh")
+                continue
             if kind_op == "newmesh" and op > 0:
                 sz = rng.choice([dict(), dict(h=0.75)] if M.dim_of(et) == 2 else [dict()])
                 mesh = M.mesh_of(et, **sz) if sz else M.mesh_of(et)
